@@ -461,6 +461,17 @@ def extract_dim(ctx, struct, dim, how):
     return ctx.done(ctx.AND(*oks), [r2[1] if r2[0] != 'ok' else None, ctx.observe(ds)], inplace=True)
 
 
+def append_duplicate(ctx, struct, dim, same_labels):
+    """ds.axes.append(Axis) under the name of a dimension the dataset already has is refused and changes nothing"""
+    ds, st = build(ctx, STRUCTS[struct])
+    kind = LK[DIMS.index(dim)]
+    n = SIZES[dim]
+    labels = list(st['labels'][dim]) if same_labels else ctx.labels(kind, n + (0 if same_labels is None else 1), 'A%s_' % dim)
+    r = ctx.call(lambda: ds.axes.append(ctx.da.Axis(ctx.nparray(labels, kind=kind), dim)))
+    ok = ctx.AND(r[0] != 'ok', inv(ctx, ds), state_eq(ctx, ds, st))
+    return ctx.done(ok, [r[1] if r[0] != 'ok' else 'accepted', ctx.observe(ds)])
+
+
 def templates():
     ts = []
 
@@ -500,6 +511,9 @@ def templates():
         if keys:
             for how in ('dict', 'fn', 'copy'):
                 add('rename-keys-%s-%s' % (sname, how), 'rename_keys', cost=0.2, struct=sname, how=how)
+    for sname, dim in (('a_x', 'x'), ('a_x-b_yx', 'y'), ('a_xy-b_y-c_0', 'x')):
+        for same in (True, False, None):
+            add('append-duplicate-%s-%s-%s' % (sname, dim, same), 'append_duplicate', cost=0.2, struct=sname, dim=dim, same_labels=same)
     # directly appended, unused axes survive unrelated mutations
     add('appended-set', 'setitem', cost=0.5, struct='a_x', key='new', newdims=['y'], match='all', appended=['y', 'z'])
     add('appended-set-free', 'setitem', cost=2, struct='a_x', key='new', newdims=['y', 'x'], match='free', appended=['y'])
